@@ -44,7 +44,13 @@ class Obligation:
         return s.to_smt2()
 
     def short(self):
-        g = str(z3.simplify(self.goal)) if not isinstance(self.goal, bool) else str(self.goal)
+        if isinstance(self.goal, bool):
+            g = str(self.goal)
+        else:
+            # sexpr() is printed by z3 itself (fast); the Python pretty-printer takes seconds on array-heavy goals
+            sg = z3.simplify(self.goal)
+            g = sg.sexpr()
+            g = g[:300] if len(g) > 300 else str(sg)      # (sexpr shares sub-terms with let; str() would expand them)
         g = re.sub(r"\s+", " ", g)
         return {"name": self.name, "kind": self.kind, "goal": g[:300], "status": self.status,
                 "backend": self.backend, "secs": round(self.secs, 3)}
@@ -102,6 +108,9 @@ def _cli(cmd, smt2, timeout):
         os.unlink(fn)
 
 
+_HAS_QUANT = {}
+
+
 def discharge(ob, timeout_s=None, want_model=True):
     """Decide one obligation.  unsat -> proved, sat -> failed (+model), else unknown."""
     timeout_s = timeout_s or QUICK_TIMEOUT_S
@@ -150,17 +159,26 @@ def discharge(ob, timeout_s=None, want_model=True):
         return False
 
     def has_quant(f):
+        # path formulas are shared by hundreds of obligations of a unit: memoise per term (the cache keeps the term
+        # alive, so its id cannot be reused)
+        key = f.get_id()
+        hit = _HAS_QUANT.get(key)
+        if hit is not None:
+            return hit[1]
         seen = set()
         todo = [f]
+        res = False
         while todo:
             x = todo.pop()
             if z3.is_quantifier(x):
-                return True
+                res = True
+                break
             if x.get_id() in seen:
                 continue
             seen.add(x.get_id())
             todo.extend(x.children())
-        return False
+        _HAS_QUANT[key] = (f, res)
+        return res
 
     def qf_try(tmo):
         """sound shortcut: drop the quantified hypotheses (fewer hypotheses); only `unsat` counts"""
